@@ -36,7 +36,7 @@ def g_var19(d):
     else:
         sz = d.rng(1, 10)
     init = bytes(x for x in d.bytes(sz) if x not in (10, 13)) if t == STR else d.bytes(sz)
-    return S.mk_var(t, sz, d.pick([RW, RO, WO]), init, name=(d.pick([b"x", b"val", b"speed", b"a_b", b"N1"]) if d.chance(2, 3) else None))
+    return S.mk_var(t, sz, d.pick([RW, RO, WO]), init, name=(d.pick([b"x", b"val", b"speed", b"a_b", b"N1", b"signal_quality_dbm", b"x" * d.rng(15, 40), b"channel_bandwidth_selector_khz"]) if d.chance(2, 3) else None))
 
 
 def benign_arg(v):
